@@ -199,14 +199,18 @@ def build(g, kind='geometry', channels=0, dtype='float64'):
     A = g_affine(g)
     uid = FOR_UIDS[g['for']]
     if kind == 'geometry':
-        return hd.VolumeGeometry(A, tuple(g['shape']), CS[g['cs']], frame_of_reference_uid=uid)
+        r = hd.VolumeGeometry(A, tuple(g['shape']), CS[g['cs']], frame_of_reference_uid=uid)
+        A[:] = 12345.0     # the caller's float64 buffer is re-used afterwards: the geometry must own a copy
+        return r
     n = g['shape'][0] * g['shape'][1] * g['shape'][2]
     arr = np.arange(1, n + 1, dtype=np.int64).reshape(g['shape'])
     ch = None
     if channels:
         arr = np.stack([arr + 1000 * c for c in range(channels)], axis=-1)
         ch = {'OpticalPathIdentifier': [str(c) for c in range(channels)]}
-    return hd.Volume(arr.astype(dtype), A, CS[g['cs']], frame_of_reference_uid=uid, channels=ch)
+    r = hd.Volume(arr.astype(dtype), A, CS[g['cs']], frame_of_reference_uid=uid, channels=ch)
+    A[:] = 12345.0         # see above
+    return r
 
 
 # ----------------------------------------------------------------------------
